@@ -12,8 +12,12 @@ func runRender(c Case) interface{} {
 	doc := asList(c["doc"])
 	ast := pugDoc(doc)
 	if m, _ := c["modes"].(string); m == "both" {
-		p := renderOne(ast, c["data"], false, nil)
-		d := renderOne(ast, c["data"], true, nil)
+		files := map[string]string{"t": ast}
+		for i, sd := range asList(c["siblings"]) {
+			files[[]string{"a", "u", "m", "z0"}[i%4]+fmt.Sprint(i)] = pugDoc(asList(sd))
+		}
+		p := renderAmong(files, c["data"], false, nil)
+		d := renderAmong(files, c["data"], true, nil)
 		return J{"prod": J{"class": p.Class, "out": p.Out, "msg": p.Msg}, "debug": J{"class": d.Class, "out": d.Out, "msg": d.Msg}}
 	}
 	if sub, ok := c["subst"].(map[string]interface{}); ok {
